@@ -6,7 +6,10 @@ spec : specs/disk/Disk.tla (OpensWithoutError, PrefixRecovered, NoPartialTxn, Ma
 MC   : exhaustive TLC: crash after every step of every interleaving of writer / flusher /
        compaction / GC / Close (intended protocol); the code-as-is switch ZeroLenLogOK=FALSE must
        give TLC's counterexample
-bind : (E-CRASH) DiskGen workloads run on the real DB with the fs recorder; at EVERY hook event
+bind : (E-CRASH) DiskGen workloads (plus "heavy" ones: 3 x 3000-byte inline values per transaction
+       against a 64 KiB memtable, so that ensureRoomForWrite rotates memtable and WAL by itself and
+       later kill points have un-flushed immutable memtables) run on the real DB with the fs
+       recorder; at EVERY hook event
        the kill image (+ the synthetic state between ftruncate(0) and unlink inside
        MmapFile.Delete) is re-opened with the real Open and compared with the states the spec
        allows; C14 (directory == MANIFEST, level validation) and C11 (next commit above all
@@ -48,6 +51,12 @@ def body(c):
     results, nchecks, classes = D.crash_campaign(c, cases, KINDS, "kill", reopen2=not q, full_confirm=1 if q else 3)
     nenc = 1 if q else 6
     r2, n2, cl2 = D.crash_campaign(c, cases[:nenc], KINDS, "kill(encrypted)", enc=True, full_confirm=0 if q else 1)
+    # transactions large relative to MemTableSize: the production code rotates memtable and WAL by
+    # itself in the middle of the workload; kill points with an un-flushed immutable memtable
+    hv = D.heavy_workloads(c, 1 if q else 6, c.seed)
+    r3, n3, cl3 = D.crash_campaign(c, hv, KINDS, "kill(natural rotation, un-flushed memtables)", full_confirm=0 if q else 1)
+    n2 += n3
+    cl2 = cl2 | set("heavy|" + x for x in cl3)
     c.add_cases(nchecks + n2, classes | set("enc|" + x for x in cl2))
     c.cov["rule"] = ("one evaluation = one crash point (hook event x image kind) re-opened with the real Open and judged "
                      "against DiskDefs.PrefixAllowed; distinct = distinct (image kind, operation, hook point) classes; "
